@@ -161,12 +161,26 @@ def c_len_evalset(ex, st, v, node):
     return [(st, ZV('int', n))]
 
 
+def idep(st, x, S):
+    """number of inputs of block x that are connected to a block of the set S (the value select_blk computes for x)"""
+    y = Int('y!idep')
+    ic = st.comp('iconnections', RefSet) if not hasattr(st, 'whole') else st.whole('iconnections')
+    return calls.refset_card(z3.Lambda([y], And(ic[x][y], S[y])))
+
+
 @contract('Circuit._simulate.select_blk', qual='edzed.simulator:Circuit._simulate.<locals>.select_blk', params={'block_set': REFSET},
           modifies=(), result=Ref('CBlock'))
 def _select_blk(c):
     S = c.z('block_set')
+    r = as_kind(c.result, Ref())
+    x = Int('x!sb')
     c.requires('set_not_empty', Exists([s_], S[s_]))
-    c.ensures('returns_a_member', S[as_kind(c.result, Ref())])
+    c.ensures('returns_a_member', S[r])
+    # the evaluation order heuristic (docstring of select_blk; C10: a change that reaches every block along few paths settles within the
+    # limit only if blocks whose inputs are still pending wait for them): no member has fewer inputs pending inside the set
+    c.ensures('no_member_has_fewer_inputs_from_within_the_set', ForAll([x], Implies(S[x], idep(c.S, r, S) <= idep(c.S, x, S))))
+    x0 = Int('x0!sb')
+    c.ensures('fewest_inputs_from_within_the_set@x0', Implies(S[x0], idep(c.S, r, S) <= idep(c.S, x0, S)))
 
 
 def inv_select(lc):
@@ -174,14 +188,11 @@ def inv_select(lc):
     mb, mi = lc.local('min_blk'), lc.local('min_idep')
     mbz, miz = to_val(mb, lc.st.st), to_val(mi, lc.st.st)
     x = Int('x!sel')
-    return [('min_blk_is_none_or_a_member', Or(And(mbz == Val.VNone, miz == Val.VNone), And(Val.is_Obj(mbz), S[Val.ref(mbz)], Val.is_I(miz)))),
-            ('found_once_something_was_visited', Implies(Exists([x], lc.done[x]), mbz != Val.VNone))]
-
-
-def count_deps(ex, e, st):
-    """sum(1 for inp in blk.iconnections if inp in block_set): some count >= 0"""
-    n = fresh('idep', IntSort()); st = st.copy(); st.assume(n >= 0)
-    return [(st, ZV('int', n))]
+    dep = lambda b: idep(lc.pre, b, S)
+    return [('min_blk_is_none_or_a_member_with_its_count', Or(And(mbz == Val.VNone, miz == Val.VNone),
+                                                             And(Val.is_Obj(mbz), S[Val.ref(mbz)], miz == Val.I(dep(Val.ref(mbz)))))),
+            ('found_once_something_was_visited', Implies(Exists([x], lc.done[x]), mbz != Val.VNone)),
+            ('no_visited_member_has_fewer', ForAll([x], Implies(lc.done[x], And(mbz != Val.VNone, dep(Val.ref(mbz)) <= dep(x)))))]
 
 
 # ---- the loop invariant (C01 + C10) ------------------------------------------------------------------------------------------
@@ -224,7 +235,7 @@ def verify_simulate(run):
         hyps = wired(st, me)
         note_out(st)
         return hyps
-    run.verify('Circuit._simulate.select_blk', invariants={'for blk in block_set': inv_select}, calls={'sum': count_deps})
+    run.verify('Circuit._simulate.select_blk', invariants={'for blk in block_set': inv_select})
     run.verify('Circuit._simulate', cls='Circuit', ghost=G, extra_pre=extra_pre,
                invariants={'while True': INV, 'while not queue.empty()': INV},
                calls={'set': c_getblocks_cblock, 'queue.empty': c_queue_empty, 'queue.get_nowait': c_get_nowait,
